@@ -35,6 +35,7 @@ DEFAULT_CONTRACTS = ['format_trashinfo', 'for_file', 'parse_indexes',
     if os.environ.get('VERIF_CONTRACTS', '1') != '0' else None
 DEFAULT_PLAN = {}
 CONTRACT_FAILS = []
+FD_LEAKS = []          # runs that ended with descriptors open on sandbox objects
 CONTRACT_COUNTS = {}
 
 
@@ -99,6 +100,13 @@ class Result(object):
         if s is None:
             return None
         return s['audit'] == s['wrapped']
+
+    def fd_leak(self):
+        """number of descriptors still open on sandbox objects when the
+        command ended (None: the run did not reach its end)"""
+        if not self.summary or 'open_fds' not in self.summary:
+            return None
+        return self.summary['open_fds']
 
     def brief(self):
         return {'argv': self.argv, 'exit': self.exit,
@@ -383,6 +391,9 @@ def finish_cmd(pid, st):
     for c in res.contracts:
         if len(CONTRACT_FAILS) < 20:
             CONTRACT_FAILS.append(dict(c, argv=res.argv))
+    if res.fd_leak() and len(FD_LEAKS) < 20:
+        FD_LEAKS.append({'argv': res.argv, 'open': res.fd_leak(),
+                         'sample': res.summary.get('open_fd_sample')})
     for k, n in res.ccounts.items():
         CONTRACT_COUNTS[k] = CONTRACT_COUNTS.get(k, 0) + n
     return res
@@ -463,6 +474,9 @@ def run_cold(world, cmd, args, stdin=b'', plan=None, cwd=None, env=None,
     for c in res.contracts:
         if len(CONTRACT_FAILS) < 20:
             CONTRACT_FAILS.append(dict(c, argv=res.argv))
+    if res.fd_leak() and len(FD_LEAKS) < 20:
+        FD_LEAKS.append({'argv': res.argv, 'open': res.fd_leak(),
+                         'sample': res.summary.get('open_fd_sample')})
     for k, n in res.ccounts.items():
         CONTRACT_COUNTS[k] = CONTRACT_COUNTS.get(k, 0) + n
     return res
